@@ -123,6 +123,8 @@ type Config struct {
 	PoolDropPm int // per-mille probability that Put drops the object
 	PoolGCPm   int // per-mille probability, at each Get, that all pools are emptied first
 	MaxSteps   int
+	// RandomPools: pool decisions are drawn even under the canonical scheduling policy.
+	RandomPools bool
 	// ForcePoolMiss makes every Pool.Get miss (attribution of a difference to pool reuse).
 	ForcePoolMiss bool
 	// SiteProcs overrides Procs for individual sites (attribution only).
@@ -185,6 +187,7 @@ type World struct {
 	NPanics     int
 
 	Probes [NProbes]int64
+	OpCount [32]int64
 	Sites  [MaxSites]SiteStat
 	nsites int
 
@@ -221,7 +224,7 @@ func (w *World) intn(n int) int { return int(w.next() % uint64(n)) }
 func NewWorld(cfg Config, replay []Decision, mode int) *World {
 	gen++
 	if cfg.MaxSteps <= 0 {
-		cfg.MaxSteps = 200000
+		cfg.MaxSteps = 3000000
 	}
 	if cfg.Procs <= 0 {
 		cfg.Procs = 1
@@ -325,7 +328,9 @@ func (w *World) choose(kind uint8, n int, def int) int {
 		return def
 	}
 	if w.Cfg.Policy == PolCanonical && kind != DFault && kind != DDeliver {
-		return def
+		if !(w.Cfg.RandomPools && (kind == DPoolGet || kind == DPoolPut || kind == DGC)) {
+			return def
+		}
 	}
 	return -1
 }
@@ -675,6 +680,7 @@ func Yield(op uint8, obj uint32) {
 	}
 	cur := w.cur
 	w.note(cur, op, obj)
+	w.OpCount[op&31]++
 	if w.checkBudget(cur) {
 		return
 	}
